@@ -36,7 +36,7 @@ fn header(prop: &str) -> &'static str {
         "C12" => "From TSG Require Import Model.HashOrder.\n",
         "C06" => "From TSG Require Import Model.Checker.\n",
         "C07" | "C05p" => "From TSG Require Import Model.ParserObs.\n",
-        "C20r" => "From TSG Require Import Model.ErrRender.\n",
+        "C20r" => "From TSG Require Import Model.ErrChainObs.\n",
         _ => "",
     }
 }
